@@ -34,8 +34,14 @@ def r_guards(chk, P, tier):
                 continue
             sw = [c for c in p.conds if c[0][0] == "switch"]
             var, payload = result_variant(p.ret)
+            if is_call(p.ret) and str(p.ret[1]).endswith("::from_residual"):
+                # `expr.ok_or(RoundingError::X)?` : the error is X, decided by the Option that ok_or was applied to
+                oks_ = [x for x in walk_terms(p.ret) if is_call(x, suffix="Option::<T>::ok_or") and x[2][1][0] == "agg"]
+                if oks_:
+                    errs.append((oks_[0][2][1][3], [pp(oks_[0][2][0])[:400]] + [pp(c[1])[:400] for c in sw]))
+                    continue
             if var == "Err":
-                errs.append((payload[0][3], [pp(c[1])[:60] for c in sw]))
+                errs.append((payload[0][3], [pp(c[1])[:400] for c in sw]))
             elif var == "Ok":
                 oks += 1
                 # every success path has passed `span <= 0` == false
